@@ -20,6 +20,8 @@ EXPLANATION = 'see DESIGN.md C14'
 ASSUMPTIONS = ['files are written under a private temporary directory outside /repo']
 
 CORNER = [
+    'int helper(int a,int b){ a = a + b; } int f(int x,int y){ while (x < 1) { y = y + x; } }',
+    'int nothing(int a){ } int g(int x){ x = x; }',
     'int f(){ }',
     'int f(int x){ }',
     'int f(int x,int y){ x = y; }',
@@ -134,6 +136,43 @@ def run(ctx):
                     if getattr(lp, fld) != getattr(op, fld):
                         ctx.violation({'kind': 'scalar-field-lost', 'field': 'program.' + fld},
                                       f'program.{fld}: {getattr(op, fld)!r} restored as {getattr(lp, fld)!r}', inp)
+                # the loaded object must WORK like the original: the accessors a user calls on a result
+                for what, fn_ in (('n_functions', lambda r: r.n_functions), ('n_loops', lambda r: r.n_loops),
+                                  ('get_func', lambda r: sorted(r.get_func().keys()) if isinstance(r.get_func(), dict) else type(r.get_func()).__name__),
+                                  ('str', lambda r: [str(x) for x in list(r.relations.values()) + list(r.loops.values())])):
+                    try:
+                        want = fn_(res)
+                    except Exception:
+                        continue
+                    try:
+                        got = fn_(loaded)
+                    except Exception as e:
+                        ctx.violation({'kind': 'restored-result-unusable', 'accessor': what, 'exception': type(e).__name__},
+                                      f'{what} of the loaded result raised {type(e).__name__}: {str(e)[:80]} for `{src[:100]}` mode={mode}', inp)
+                        continue
+                    if got != want:
+                        ctx.violation({'kind': 'restored-result-differs', 'accessor': what},
+                                      f'{what} of the loaded result is {str(got)[:80]}, was {str(want)[:80]} for `{src[:100]}` mode={mode}', inp)
+                for name, fl in res.loops.items():
+                    ll = loaded.loops.get(name)
+                    if ll is None:
+                        ctx.violation({'kind': 'function-lost', 'mode': 'loop'}, f'loop-mode entry {name} missing after reload', inp)
+                        continue
+                    if type(ll.loops) is not type(fl.loops) or len(ll.loops or []) != len(fl.loops):
+                        ctx.violation({'kind': 'part-lost', 'part': 'loops'},
+                                      f'{name}.loops: {len(fl.loops)} loop result(s) restored as {ll.loops!r:.60}', inp)
+                        continue
+                    for a_, b_ in zip(fl.loops, ll.loops):
+                        if a_.loop_code != b_.loop_code or sorted(a_.variables) != sorted(b_.variables):
+                            ctx.violation({'kind': 'loop-result-differs'}, f'{name}: loop result differs after reload', inp)
+                            break
+                        for v_ in a_.variables:
+                            x_, y_ = a_.variables[v_], b_.variables[v_]
+                            if (x_.is_m, x_.is_w, x_.is_p) != (y_.is_m, y_.is_w, y_.is_p) or \
+                                    (str(x_.bound) if x_.bound else None) != (str(y_.bound) if y_.bound else None):
+                                ctx.violation({'kind': 'loop-result-differs', 'what': 'variable'},
+                                              f'{name}: result of {v_} differs after reload', inp)
+                                break
                 for name, fr in res.relations.items():
                     lr = loaded.relations.get(name)
                     if lr is None:
